@@ -4,7 +4,7 @@ from __future__ import annotations
 import re
 from pathlib import Path
 
-from . import common, gen
+from . import common, gen, tmpl
 from .common import Stream, enc_str, dec_str, enc_bool
 from .tmpl import print_args, string_ok
 
@@ -95,7 +95,11 @@ def gen_text_tags(rng, n, tier):
         args, kwargs = gen_args(rng, tag)
         if not all(string_ok(a) for a in args if isinstance(a, str)):
             continue
-        yield {"tag": tag, "args": args, "kwargs": kwargs, "ctx": gen_context(rng), "other": gen_context(rng)}
+        ctx = gen_context(rng) if rng.random() < 0.93 else ""
+        # how the context reaches the tag: rendered by a tag, written literally in braces (an empty "{}" included), or piped
+        # (raw template text cannot carry %, TAB/CR/LF or a trailing backslash: such contexts come from a tag)
+        form = rng.choice(["src", "src", "literal", "pipe"]) if (ctx == "" or tmpl.text_ok(ctx)) else "src"
+        yield {"tag": tag, "args": args, "kwargs": kwargs, "ctx": ctx, "other": gen_context(rng), "form": form}
 
 
 def impl_text_tags(case):
@@ -105,7 +109,14 @@ def impl_text_tags(case):
     reg = _registry()
     src = _state["src"]
     category = "Core." if case["tag"] in ("Sanitize", "Default") else "Text."
-    text = "%" + category + case["tag"] + print_args(case["args"], case["kwargs"]) + "{%Src()}"
+    call = "%" + category + case["tag"] + print_args(case["args"], case["kwargs"])
+    form = case.get("form", "src")
+    if form == "literal":
+        text = call + "{" + tmpl.esc_text(case["ctx"]) + "}"
+    elif form == "pipe":
+        text = tmpl.esc_text(case["ctx"]) + "|" + call
+    else:
+        text = call + "{%Src()}"
     try:
         pattern = TemplateCompiler(reg).compile(text)
     except TemplateError as exc:
